@@ -64,7 +64,37 @@ Example C05_geo_example :
   end.
 Proof. vm_compute. repeat split; reflexivity. Qed.
 
+(* ---- AnchoredSlice ---- *)
+From WP Require iovec.GeoMem iovec.GeoProofs iovec.GeoAslice.
+Theorem C05_aslice_read_n h k got count h' k' a :
+  GeoProofs.cache_ok h k -> GeoProofs.heap_ok h -> (0 < count)%N -> (Geo.nlen got <= count)%N ->
+  Geo.as_read_n h k got count = Some (h', k', a) ->
+  GeoAslice.as_ok h' a /\ Geo.sl_bytes h' (Geo.as_sl a) = got /\ Geo.as_len a = Geo.nlen got.
+Proof. exact (GeoAslice.as_read_n_ok h k got count h' k' a). Qed.
+Theorem C05_aslice_skip_prefix h a n : GeoAslice.as_ok h a ->
+  GeoAslice.as_ok h (fst (Geo.as_skip_prefix a n)) /\ snd (Geo.as_skip_prefix a n) = N.min n (Geo.as_len a) /\
+  Geo.sl_bytes h (Geo.as_sl (fst (Geo.as_skip_prefix a n))) = Geo.nskipn (N.min n (Geo.as_len a)) (Geo.sl_bytes h (Geo.as_sl a)).
+Proof. exact (GeoAslice.as_skip_prefix_ok h a n). Qed.
+Theorem C05_aslice_drop_suffix h a n : GeoAslice.as_ok h a ->
+  GeoAslice.as_ok h (fst (Geo.as_drop_suffix a n)) /\ snd (Geo.as_drop_suffix a n) = N.min n (Geo.as_len a) /\
+  Geo.sl_bytes h (Geo.as_sl (fst (Geo.as_drop_suffix a n))) =
+    Geo.nfirstn (Geo.as_len a - N.min n (Geo.as_len a)) (Geo.sl_bytes h (Geo.as_sl a)).
+Proof. exact (GeoAslice.as_drop_suffix_ok h a n). Qed.
+Theorem C05_aslice_split_at h a mid : GeoAslice.as_ok h a ->
+  let '(l, r) := Geo.as_split_at a mid in
+  GeoAslice.as_ok h l /\ GeoAslice.as_ok h r /\
+  Geo.sl_bytes h (Geo.as_sl l) ++ Geo.sl_bytes h (Geo.as_sl r) = Geo.sl_bytes h (Geo.as_sl a) /\
+  Geo.as_len l = N.min mid (Geo.as_len a) /\ (Geo.as_len l + Geo.as_len r = Geo.as_len a)%N /\
+  ((mid < Geo.as_len a)%N -> Geo.as_anchor l = Geo.as_anchor a /\ Geo.as_anchor r = Geo.as_anchor a /\
+     match Geo.as_sl l, Geo.as_sl r with
+     | Geo.SArena c lo ll, Geo.SArena c' ro _ => c = c' /\ (lo + ll = ro)%N
+     | _, _ => False
+     end \/ Geo.as_len a = 0%N).
+Proof. exact (GeoAslice.as_split_at_ok h a mid). Qed.
+
 Print Assumptions C05_core.
+Print Assumptions C05_aslice_read_n.
+Print Assumptions C05_aslice_split_at.
 Print Assumptions C05_geo_ownership.
 Print Assumptions C05_release_only_unreachable.
 Print Assumptions C05_anchored_window.
